@@ -200,7 +200,7 @@ func runC12(c *Ctx) {
 		u := g.U
 		bad := ""
 		usesCompile := false
-		eachInstr(pp, func(_ *ssa.BasicBlock, in ssa.Instruction) {
+		eachInstrG(c.P, pp, func(_ *ssa.BasicBlock, in ssa.Instruction) {
 			if cl, ok := in.(*ssa.Call); ok && cl.Call.StaticCallee() != nil {
 				switch calleeName(cl.Call.StaticCallee()) {
 				case "regexp.Compile":
